@@ -1,89 +1,86 @@
 (** C01 — values read from the lazily cached variable graph are never stale.
-    Property theorems only; every statement is over the model of State/StateModel.v:
+    Property theorems only; every statement is over the model of State/StateModel.v at the code as it is
+    (State/StateNow.v: [step_now] / [run_now] = [step] / [run] with [State.__setitem__] as it is since commit 27ac519,
+    i.e. an assignment made while [auto_fork_type is None] also forgets [_last_fork]; the harness checks on every
+    run that the tree under test has this rule and reports the history of finding F1 as a violation otherwise):
       [g]   any variable graph, [WF g] = what dag.py must deliver (C15's subject; computed by [wf_b] on every graph of the tie),
       [sm]  what torch does on values ([put_val], [mix]); [F_mix g sm] = per-individual node functions commute with the
-            row-wise selection of a partial revert (only used when the history contains a partial revert),
-      [fx]  false = the code as it is, true = the code with the one-line repair of finding F1,
-      [chk] whether the discipline additionally forbids an un-forked assignment while a fork is pending (F1's trigger),
-      [Disciplined .. chk ..] = the documented precondition of partial reverts (+ the extra clause when [chk = true]). *)
+            row-wise selection of a partial revert (only used when the history contains a partial revert); the executable
+            instance of the tie and of the examples is [xsem_where], the [torch.where] selection of State.revert(subset)
+            since commit fe0cadd (recognised by the harness on every run, like the fork rule),
+      [MaskDisciplined g sm s ops] = the documented precondition of partial reverts, and nothing else: every
+            [RevertMask] of the history is applied while each doubly cached node of the forked sub-graph carries the
+            individual axis.  Histories are otherwise arbitrary (in particular assignments with auto-fork switched off
+            while a fork is pending, followed by reverts — the shape of the former finding F1). *)
 From Coq Require Import List Arith Bool ZArith.
-From Leaspy Require Import State.StateModel State.StateProofs State.StateExec State.StateExecProofs.
+From Leaspy Require Import State.StateModel State.StateProofs State.StateExec State.StateExecProofs
+                           State.StateNow State.StateNowProofs.
 Import ListNotations.
 
 (** Every read that returns a value returns the from-scratch value of the state's current independent values:
     for every value type, every well-formed graph, every history of every operation on any number of states. *)
 Theorem C01_never_stale :
-  forall (V M IX : Type) (g : graph V) (sm : sem V M IX) (fx chk : bool),
-    WF g -> F_mix g sm -> fx = true \/ chk = true ->
-    forall ops, Disciplined g sm fx chk (init_store g) ops ->
+  forall (V M IX : Type) (g : graph V) (sm : sem V M IX),
+    WF g -> F_mix g sm ->
+    forall ops, MaskDisciplined g sm (init_store g) ops ->
     forall k i st v,
-      nth_error (fst (run g sm fx (init_store g) ops)) k = Some st ->
-      snd (step g sm fx (fst (run g sm fx (init_store g) ops)) (Get k i)) = Ok v ->
+      nth_error (fst (run_now g sm (init_store g) ops)) k = Some st ->
+      snd (step_now g sm (fst (run_now g sm (init_store g) ops)) (Get k i)) = Ok v ->
       scratch g (values st) i = Some v.
-Proof. intros V M IX g sm fx chk W Fm D ops. exact (never_stale V M IX g sm fx chk W D ops Fm). Qed.
+Proof. intros V M IX g sm W Fm ops. exact (never_stale_now V M IX g sm W ops Fm). Qed.
 Print Assumptions C01_never_stale.
 
-(** The code as it is ([fx = false]): proved under the extra clause (no un-forked assignment while a fork is pending).
-    What is missing w.r.t. the property text: histories that switch auto-fork off between a forked assignment and its
-    revert — see [C01_fork_mode_switch_refuted]. *)
-Theorem C01_never_stale_partial :
+(** Histories without per-individual reverts (full reverts, clones, mode switches, ... in any order): no hypothesis on
+    the history at all. *)
+Theorem C01_never_stale_full_reverts :
   forall (V M IX : Type) (g : graph V) (sm : sem V M IX),
     WF g -> F_mix g sm ->
-    forall ops, Disciplined g sm false true (init_store g) ops ->
+    forall ops, forallb (@no_partial_revert V M IX) ops = true ->
     forall k i st v,
-      nth_error (fst (run g sm false (init_store g) ops)) k = Some st ->
-      snd (step g sm false (fst (run g sm false (init_store g) ops)) (Get k i)) = Ok v ->
+      nth_error (fst (run_now g sm (init_store g) ops)) k = Some st ->
+      snd (step_now g sm (fst (run_now g sm (init_store g) ops)) (Get k i)) = Ok v ->
       scratch g (values st) i = Some v.
-Proof. intros V M IX g sm W Fm ops. exact (never_stale V M IX g sm false true W (or_intror eq_refl) ops Fm). Qed.
-Print Assumptions C01_never_stale_partial.
-
-(** The repaired code ([fx = true]): the full statement — only the documented precondition of partial reverts remains. *)
-Theorem C01_never_stale_repaired :
-  forall (V M IX : Type) (g : graph V) (sm : sem V M IX),
-    WF g -> F_mix g sm ->
-    forall ops, Disciplined g sm true false (init_store g) ops ->
-    forall k i st v,
-      nth_error (fst (run g sm true (init_store g) ops)) k = Some st ->
-      snd (step g sm true (fst (run g sm true (init_store g) ops)) (Get k i)) = Ok v ->
-      scratch g (values st) i = Some v.
-Proof. intros V M IX g sm W Fm ops. exact (never_stale V M IX g sm true false W (or_introl eq_refl) ops Fm). Qed.
-Print Assumptions C01_never_stale_repaired.
-
-(** The faithful model violates the full statement: finding F1 (c = a + b; fork REF; a=1, b=10; read c; a=2;
-    auto_fork_type=None; b=20; revert(); read c gives 11, the current independent values give 21). *)
-Theorem C01_fork_mode_switch_refuted :
-  exists (g : graph xval) (ops : list xop) (k i : nat),
-    WF g /\ F_mix g xsem /\ Disciplined g xsem false false (init_store g) ops /\
-    read_of g xsem false ops k i = Ok (XS (AFin 11)) /\
-    fresh_of g xsem false ops k i = Some (Some (XS (AFin 21))).
-Proof. exact fork_mode_switch_refuted. Qed.
-Print Assumptions C01_fork_mode_switch_refuted.
+Proof. intros V M IX g sm W Fm ops. exact (never_stale_full_reverts V M IX g sm W ops Fm). Qed.
+Print Assumptions C01_never_stale_full_reverts.
 
 (** A read fails with an input error exactly when the from-scratch evaluation needs an unset independent value;
     it never fails otherwise (no node function is ever called on None) and, by [C01_never_stale], never answers
     with a default or an old value. *)
 Theorem C01_unset_is_error :
-  forall (V M IX : Type) (g : graph V) (sm : sem V M IX) (fx chk : bool),
-    WF g -> F_mix g sm -> fx = true \/ chk = true ->
-    forall ops, Disciplined g sm fx chk (init_store g) ops ->
+  forall (V M IX : Type) (g : graph V) (sm : sem V M IX),
+    WF g -> F_mix g sm ->
+    forall ops, MaskDisciplined g sm (init_store g) ops ->
     forall k i st,
-      nth_error (fst (run g sm fx (init_store g) ops)) k = Some st ->
-      let r := snd (step g sm fx (fst (run g sm fx (init_store g) ops)) (Get k i)) in
+      nth_error (fst (run_now g sm (init_store g) ops)) k = Some st ->
+      let r := snd (step_now g sm (fst (run_now g sm (init_store g) ops)) (Get k i)) in
       (r = Err InputError <-> scratch g (values st) i = None) /\ (forall e, r = Err e -> e = InputError).
-Proof. intros V M IX g sm fx chk W Fm D ops. exact (unset_is_error V M IX g sm fx chk W D ops Fm). Qed.
+Proof. intros V M IX g sm W Fm ops. exact (unset_is_error_now V M IX g sm W ops Fm). Qed.
 Print Assumptions C01_unset_is_error.
 
 (** Both directions at once: the result of a read IS the from-scratch evaluation. *)
 Theorem C01_read_is_scratch :
-  forall (V M IX : Type) (g : graph V) (sm : sem V M IX) (fx chk : bool),
-    WF g -> F_mix g sm -> fx = true \/ chk = true ->
-    forall ops, Disciplined g sm fx chk (init_store g) ops ->
+  forall (V M IX : Type) (g : graph V) (sm : sem V M IX),
+    WF g -> F_mix g sm ->
+    forall ops, MaskDisciplined g sm (init_store g) ops ->
     forall k i st,
-      nth_error (fst (run g sm fx (init_store g) ops)) k = Some st ->
-      snd (step g sm fx (fst (run g sm fx (init_store g) ops)) (Get k i)) =
+      nth_error (fst (run_now g sm (init_store g) ops)) k = Some st ->
+      snd (step_now g sm (fst (run_now g sm (init_store g) ops)) (Get k i)) =
         match scratch g (values st) i with Some v => Ok v | None => Err InputError end.
-Proof. intros V M IX g sm fx chk W Fm D ops. exact (read_after_history V M IX g sm fx chk W D ops Fm). Qed.
+Proof. intros V M IX g sm W Fm ops. exact (read_after_history_now V M IX g sm W ops Fm). Qed.
 Print Assumptions C01_read_is_scratch.
+
+(** What makes the full statement hold (the repair of finding F1): an assignment made with auto-fork switched off
+    leaves no undo log behind, so a revert after it — full or per-individual — is refused with the input error
+    "no fork to revert from" and changes nothing; it can no longer write values derived from older independent
+    values back into the cache. *)
+Theorem C01_unforked_set_drops_fork :
+  forall (V M IX : Type) (g : graph V) (sm : sem V M IX) (st : state V) (i : nat) (o : option V),
+    i < gn g -> settable g i = true -> mode st = None ->
+    let st' := fst (set_now g st i o) in
+    fork st' = None /\ revert_state st' = (st', Err InputError) /\
+    (forall m, revert_mask_state sm st' m = (st', Err InputError)).
+Proof. intros V M IX g sm st i o. exact (unforked_set_drops_fork V M IX g sm st i o). Qed.
+Print Assumptions C01_unforked_set_drops_fork.
 
 (** A read is transparent: in any consistent state it changes no independent value, neither the undo log nor the
     fork mode, and no later read result. *)
@@ -99,26 +96,44 @@ Print Assumptions C01_get_transparent.
 (** States do not interfere: a history that never addresses state [k] leaves it untouched (values, undo log, mode),
     whatever it does to the other states and to clones of [k]; and a clone starts with exactly the values of its source. *)
 Theorem C01_clone_isolated :
-  forall (V M IX : Type) (g : graph V) (sm : sem V M IX) (fx : bool) (ops : list (op V M IX)) (s : store V) (k : nat),
+  forall (V M IX : Type) (g : graph V) (sm : sem V M IX) (ops : list (op V M IX)) (s : store V) (k : nat),
     k < length s -> (forall o, In o ops -> op_state o <> k) ->
-    nth_error (fst (run g sm fx s ops)) k = nth_error s k.
-Proof. intros V M IX g sm fx ops. exact (clone_isolated V M IX g sm fx ops). Qed.
+    nth_error (fst (run_now g sm s ops)) k = nth_error s k.
+Proof. intros V M IX g sm ops. exact (clone_isolated V M IX g sm true ops). Qed.
 Print Assumptions C01_clone_isolated.
 
 Theorem C01_clone_copies :
-  forall (V M IX : Type) (g : graph V) (sm : sem V M IX) (fx : bool) (s : store V) (k : nat) (d kp : bool) (st : state V),
+  forall (V M IX : Type) (g : graph V) (sm : sem V M IX) (s : store V) (k : nat) (d kp : bool) (st : state V),
     nth_error s k = Some st ->
-    nth_error (fst (step g sm fx s (Clone k d kp))) (length s) = Some (clone_state st d kp) /\
+    nth_error (fst (step_now g sm s (Clone k d kp))) (length s) = Some (clone_state st d kp) /\
     values (clone_state st d kp) = values st.
-Proof. intros V M IX g sm fx s k d kp st. exact (clone_copy V M IX g sm fx s k d kp st). Qed.
+Proof. intros V M IX g sm s k d kp st. exact (clone_copy V M IX g sm true s k d kp st). Qed.
 Print Assumptions C01_clone_copies.
 
-(** Non-vacuity: the graph of tests/unit_tests/variables/test_state.py, a diamond and the graph of F1 are
-    well-formed; a 14-operation history with forked assignments, reads, a partial and a full revert, a clone and a
-    mode switch is disciplined in the strict sense and its last read is the fresh value. *)
+(** Non-vacuity: the graph of tests/unit_tests/variables/test_state.py, a diamond and the graph of F1 are well-formed;
+    a 21-operation history on the diamond (forked assignments, reads, a partial revert that mixes rows, an un-forked
+    assignment over a pending fork followed by a full and a partial revert — both refused —, a clone, an accepted
+    revert on the clone) meets the precondition and its reads are the fresh values; the history of the former
+    finding F1 meets the precondition, its revert is refused and its last read is the fresh 2 + 20; a per-individual
+    revert whose discarded side is NaN (y = log2 x, x = [-1, 4] rejected for individual 0) leaves the fresh y = [0, 2]. *)
 Theorem C01_examples :
   WF (mk_graph test_state_nodes) /\ WF (mk_graph diamond_nodes) /\ WF (mk_graph f1_nodes) /\
-  disciplined_b (mk_graph diamond_nodes) xsem false true (init_store (mk_graph diamond_nodes)) demo_ops = true /\
-  read_of (mk_graph diamond_nodes) xsem false demo_ops 1 3 = Ok (XS (AFin 58)).
-Proof. split; [exact test_state_wf | split; [exact diamond_wf | split; [exact f1_wf | split; apply demo_disciplined]]]. Qed.
+  (MaskDisciplined (mk_graph diamond_nodes) xsem_where (init_store (mk_graph diamond_nodes)) (now_ops ++ [Get 1 3; Revert 1]) /\
+   nth_error (outs_of (mk_graph diamond_nodes) now_ops) 6 = Some Done /\
+   nth_error (outs_of (mk_graph diamond_nodes) now_ops) 13 = Some (Err InputError) /\
+   nth_error (outs_of (mk_graph diamond_nodes) now_ops) 14 = Some (Err InputError) /\
+   read_of (mk_graph diamond_nodes) xsem_where true now_ops 0 3 = Ok (XS (AFin 213)) /\
+   fresh_of (mk_graph diamond_nodes) xsem_where true now_ops 0 3 = Some (Some (XS (AFin 213))) /\
+   read_of (mk_graph diamond_nodes) xsem_where true (now_ops ++ [Get 1 3; Revert 1]) 1 3 = Ok (XS (AFin 213))) /\
+  (MaskDisciplined (mk_graph f1_nodes) xsem_where (init_store (mk_graph f1_nodes)) f1_ops /\
+   nth_error (outs_of (mk_graph f1_nodes) f1_ops) 7 = Some (Err InputError) /\
+   read_of (mk_graph f1_nodes) xsem_where true f1_ops 0 2 = Ok (XS (AFin 22)) /\
+   fresh_of (mk_graph f1_nodes) xsem_where true f1_ops 0 2 = Some (Some (XS (AFin 22)))) /\
+  (WF (mk_graph nf_nodes) /\
+   MaskDisciplined (mk_graph nf_nodes) xsem_where (init_store (mk_graph nf_nodes)) nf_ops /\
+   nth_error (outs_of (mk_graph nf_nodes) nf_ops) 4 = Some (Ok (XP [ANaN; AFin 2])) /\
+   nth_error (outs_of (mk_graph nf_nodes) nf_ops) 5 = Some Done /\
+   read_of (mk_graph nf_nodes) xsem_where true nf_ops 0 1 = Ok (XP [AFin 0; AFin 2]) /\
+   fresh_of (mk_graph nf_nodes) xsem_where true nf_ops 0 1 = Some (Some (XP [AFin 0; AFin 2]))).
+Proof. split; [exact test_state_wf | split; [exact diamond_wf | split; [exact f1_wf | split; [exact now_disciplined | split; [exact f1_now | exact nonfinite_now]]]]]. Qed.
 Print Assumptions C01_examples.
